@@ -265,6 +265,9 @@ func (s *sim) makeTx(v *view, spec TxSpec) *txInfo {
 	if other == from {
 		other = s.keyed(from.idx + 2)
 	}
+	if from.multi == nil && spec.Sign > 5 {
+		spec.Sign = 1 + spec.Sign%5 // modes 6, 7 exist for multisig actors only
+	}
 	if other == from && (spec.Sign == 1 || spec.Sign == 4) {
 		spec.Sign = 0 // nobody else holds a key in this run
 	}
@@ -282,6 +285,24 @@ func (s *sim) makeTx(v *view, spec TxSpec) *txInfo {
 		// matching (malformed) code with arbitrary parameter bytes
 		tx.SetPrograms([]*pg.Program{{Code: from.acc.RedeemScript, Parameter: weirdParam(spec.Sign+len(spec.InSel), uint64(s.txNonce))}})
 		s.c.Fault("spend-from-script-actor:" + from.weird)
+	} else if from.multi != nil {
+		if spec.Sign != 3 {
+			var buf bytes.Buffer
+			tx.SerializeUnsigned(&buf)
+			mode := spec.Sign
+			if mode == 2 {
+				mode = 0 // signed honestly, altered below
+			}
+			pick := 0
+			if len(spec.InSel) > 0 {
+				pick = spec.InSel[0]
+			}
+			param, ok := s.multiParam(from, mode, pick, buf.Bytes())
+			tx.SetPrograms([]*pg.Program{{Code: from.acc.RedeemScript, Parameter: param}})
+			if ok {
+				facts.signedBy[from.idx] = true
+			}
+		}
 	} else if spec.Sign != 3 {
 		var buf bytes.Buffer
 		signTx := tx
@@ -363,6 +384,10 @@ func (s *sim) pickParent(bs *BlockSpec) *mBlock {
 		return s.bestValid()
 	case 4:
 		return s.blocks[len(s.blocks)-1]
+	case 5: // a sibling of the last block built (same parent)
+		if p := s.blocks[len(s.blocks)-1].parent; p != nil {
+			return p
+		}
 	}
 	return s.nodeTip()
 }
